@@ -162,13 +162,16 @@ theorem sim_deleteMapEntry {σ : Sh} {s t : St} (hR : StR σ s t) (left : Node) 
     rintro _ r s1 t1 hR1 rfl
     cases r with
     | none => exact SimAt.pure hR1 rfl
-    | some obj =>
+    | some obj0 =>
+      simp only [Option.map]
+      refine SimAt.bind (sim_valueOf hR1 obj0) ?_
+      rintro _ obj s1' t1' hR1' ⟨rfl, _⟩
       cases obj with
       | map big kvs =>
-        simp only [Option.map, ren]
+        simp only [ren]
         rw [mapDelete_ren]
         refine SimAt.bind (Q := fun a b => a = b.map (renP σ))
-          (SimAt.liftR hR1 (RelR.of_eq (f := Option.map (renP σ)) rfl (fun _ => rfl))) ?_
+          (SimAt.liftR hR1' (RelR.of_eq (f := Option.map (renP σ)) rfl (fun _ => rfl))) ?_
         rintro _ r2 s2 t2 hR2 rfl
         cases r2 with
         | none => exact SimAt.pure hR2 rfl
@@ -180,7 +183,7 @@ theorem sim_deleteMapEntry {σ : Sh} {s t : St} (hR : StR σ s t) (left : Node) 
           refine SimAt.bind this ?_
           rintro _ oerr s4 t4 hR4 rfl
           exact sim_errOr hR4 oerr (.bool true)
-      | _ => all_goals exact SimAt.pure hR1 rfl
+      | _ => all_goals exact SimAt.pure hR1' rfl
   · exact SimAt.pure hR rfl
 
 theorem sim_derefList {σ : Sh} : ∀ (l : List Obj) (s t : St), StR σ s t →
@@ -391,11 +394,11 @@ theorem sim_extendFunctionEnv {σ : Sh} {s t : St} (hR : StR σ s t) (f : FuncVa
   have hk : (renFn σ f).key = f.key := rfl
   have hv : (renFn σ f).variadic = f.variadic := rfl
   have he : (renFn σ f).env = sh σ f.env := rfl
-  rw [hk, hv, he, hcfr.cacheKey]
-  have hpar : (if (cft.cacheKey == f.key) = true then sh σ t.cur else sh σ f.env) =
-      sh σ (if (cft.cacheKey == f.key) = true then t.cur else f.env) := by split <;> rfl
+  rw [sameFunction_ren σ hcfr.cacheKey hcfr.function f, hk, hv, he]
+  have hpar : (if (sameFunction cft f) = true then sh σ t.cur else sh σ f.env) =
+      sh σ (if (sameFunction cft f) = true then t.cur else f.env) := by split <;> rfl
   rw [hpar]
-  generalize (if (cft.cacheKey == f.key) = true then t.cur else f.env) = parent
+  generalize (if (sameFunction cft f) = true then t.cur else f.env) = parent
   refine sim_getFrame_bind hR parent ?_
   intro pfs pft hpte _ hpfr
   rw [hpfr.depth]
